@@ -7,7 +7,7 @@ from lib.common import *
 PKG = "server/upstream"
 TEST = "TestVerifHarness_Upstream"
 HDIRS = ["upstream"]                      # only our own harness directory is injected (others share the package)
-EPS = ["e", "e1", "E"]                    # near-miss endpoint names on purpose
+EPS = ["e", "e1", "E", "\xe9:1"]          # near-miss endpoint names on purpose; one that is not UTF-8 and has a colon
 SEL_EPS = ["e", "e1", "E", "x", ""]       # selects also ask for endpoints nobody registers
 REMOTES = ["r1", "r2", "r3"]
 STATUSES = ["active", "active", "active", "unreachable", "left"]
